@@ -12,6 +12,7 @@ import Mathlib.Tactic.Positivity
 import Mathlib.Algebra.Order.Field.Basic
 import TfelVerif.Common.M3
 
+set_option linter.unusedSectionVars false
 namespace TfelVerif.C21
 variable {K : Type} [Field K]
 
@@ -96,6 +97,12 @@ macro "c21_unfold" : tactic =>
       List.append_nil, List.getD_cons_succ, List.getD_cons_zero, List.getD_nil, List.sum_cons, List.sum_nil,
       List.zipWith_cons_cons, List.zipWith_nil_left, List.zipWith_nil_right,
       Nat.reduceMul, Nat.reduceAdd, List.cons.injEq, and_true, true_and])
+
+/-- restricting the axes-exchanged 3D tensor to the plane components is `pipe4` -/
+theorem block4_swap23 (l : List K) : block4 (sub 6 [0, 2, 1, 4, 3, 5] l) = pipe4 l := by
+  simp only [block4, pipe4, sub, ent, List.flatMap_cons, List.flatMap_nil, List.map_cons, List.map_nil,
+    List.cons_append, List.nil_append, List.append_nil, List.getD_cons_succ, List.getD_cons_zero,
+    Nat.reduceMul, Nat.reduceAdd]
 
 /-- list equalities between traced tensors and their specification, entry by entry -/
 macro "c21_eq" : tactic =>
